@@ -602,10 +602,9 @@ let make_m1 (params : string list) : machine =
               rk := List.filter (fun w -> int_of_z w < vz) !rk;
               let f1 = { !fs with ms = !st } in
               let f2 = (if had && f1.mlabel <> None then { f1 with dlabel = None; mlabel = None } else f1) in
-              (* enable_if_needed, through an operation that does nothing else: a load of the
-                 version that is already loaded *)
-              fs := f2;
-              (if not f2.skipf then ignore (fdo (FLoad !st.version)));
+              (* the index is rebuilt from the SAVED latest version when enabled (FastLife.enable_if_needed);
+                 the working tree and its unsaved additions / removals stay as they are *)
+              fs := enable_if_needed f2;
               "ok"
             end
         | [ "dvreload"; v; mode ] ->
